@@ -468,8 +468,21 @@ func CopyArr(dst, doff, src, soff, n *Term) *Term {
 	return App("copyarr", dst.sort, dst, doff, src, soff, n)
 }
 
-// SelectA is Select with beta reduction of copyarr.
+var selectMemo = map[[2]int]*Term{}
+
+// SelectA is Select with beta reduction of copyarr (memoised: merged states
+// share most of their structure).
 func SelectA(a, i *Term) *Term {
+	key := [2]int{a.id, i.id}
+	if r, ok := selectMemo[key]; ok {
+		return r
+	}
+	r := selectA(a, i)
+	selectMemo[key] = r
+	return r
+}
+
+func selectA(a, i *Term) *Term {
 	switch a.op {
 	case "copyarr":
 		dst, doff, src, soff, n := a.args[0], a.args[1], a.args[2], a.args[3], a.args[4]
